@@ -66,6 +66,22 @@ def r1(rr, repo):
             rr.ob(f'{attr} is written only by its accessors', fn is not None and fn.name in ('rgb', 'bgr', 'gray', 'ro_rgb', 'ro_bgr'), mod, st, key=f'cache-writer|{attr}|{qualname(st)}')
 
 
+    # ... and the cached JPEG is attached to a frame at the places whose conditions the rules of this property judge, nowhere else: the constructor (None / False / the JPEG of the frame it is built
+    # from - C10.R8), from_blob (the blob itself - C10.R2), the `jpg` accessor (above), unreduce (C10.R7). A store anywhere else - a writable copy that is handed the JPEG of the frame it was
+    # copied from - puts an encoding next to pixels that can still change
+    JPG_WRITERS = {'__init__': 'C10.R8', 'from_blob': 'C10.R2', 'jpg': 'C10.R1', 'unreduce': 'C10.R7'}
+    n = 0
+    for st, tgt in q.stores_to_attr(mod.tree, '__jpg'):
+        fn = enclosing_function(st)
+        n += 1
+        rr.ob('the cached JPEG is stored only by the constructor, from_blob, the jpg accessor and unreduce', fn is not None and fn.name in JPG_WRITERS, mod, st,
+              witness=f'{U(st)[:80]} in {fn.name if fn else "module"}', key=f'jpg-writer|{fn.name if fn else "module"}|{U(tgt)[:30]}')
+    rr.floor('stores of the cached JPEG', n, 5, mod, mod.tree)
+    reflect = [c for c in q.calls_in(mod.tree) if U(c.func) == 'setattr' and len(c.args) >= 2 and any(x in U(c.args[1]) for x in ('__jpg', '__ro_', '__image'))] + \
+              [n_ for n_ in ast.walk(mod.tree) if isinstance(n_, ast.Assign) and any(isinstance(t, ast.Subscript) and U(t.value).endswith('__dict__') for t in n_.targets)]
+    rr.ob('no cache is written by reflection (setattr / __dict__)', not reflect, mod, reflect[0] if reflect else mod.tree, witness=U(reflect[0])[:80] if reflect else '', key='cache-no-reflection')
+
+
 @rule('C10.R2', 'a JPEG is attached only to pixels that can no longer change: eager decode in from_blob and lazy decode in .image freeze the array')
 def r2(rr, repo):
     mod, fn, paths = acc_paths(repo, 'from_blob')
